@@ -11,7 +11,7 @@ class C07(core.Check):
     design_ref = "DESIGN.md §5 C07"
     technique = ("Lean 4 invariant proof over a model of the real-time branch of Doist.do and MonoTimer for an arbitrary clock state machine "
                  "+ differential run of the compiled model against Doist.do under a scripted time.time()/time.sleep()")
-    level_text = ("Lean theorems, unconditional, over EVERY linearly ordered commutative ring of time values (instances stated for Int = what the driver runs, and Rat), for EVERY clock behaviour (an arbitrary state machine answering time.time() and reacting to time.sleep: steady, stalled, stepped back anywhere incl. inside the constructor and between Doist() and do(), overshooting or waking early, running out), every fuel, every number of cycles, every pattern of extra clock readings by doers, every tock (set at construction, defaulted, or reassigned before the run) and, for the *_any_history forms, every prior state of the timer: never_early (cycle k>=1 begins only when the sum of the non-negative clock increments since the run's first reading is >= k*tock), lossless (every sleep request equals max(0, (k+1)*tock - elapsed real time seen by the timer): deadlines stay on the k*tock grid whatever the lateness), run_tock_is_tock_at_start, plus the scanning forms the oracle evaluates; proved by an invariant over the pacing loop (stop - last = deadline - elapsed). Model = repaired code (3 fix: commits on fix/timer). The model is tied to Doist.do/MonoTimer by a differential run of the full event log under a scripted time.time/time.sleep; the retro default and Tymist.Tock are re-extracted on every run. Rounding is outside the exact model: a raw-float stream (fpace: non-dyadic readings/tocks, wake-ups aimed at the float deadline and its neighbours) is judged by a float reference oracle only (tolerance-free: a cycle starts only when the timer shown the run's readings has latest >= its float-accumulated stop; no sleep exceeds stop - latest). Phase 3: the same Doist run twice (finished / Ctrl-C / doer exception, clock replaced, tock reassigned, doist() entry; theorem doRun_forgets_timer_history), sibling Doist, no doers, Doist.ado real mode (oracle only).")
+    level_text = ("Lean theorems, unconditional, over EVERY linearly ordered commutative ring of time values (instances stated for Int = what the driver runs, and Rat), for EVERY clock behaviour (an arbitrary state machine answering time.time() and reacting to time.sleep: steady, stalled, stepped back anywhere incl. inside the constructor and between Doist() and do(), overshooting or waking early, running out), every fuel, every number of cycles, every pattern of extra clock readings by doers, every tock (set at construction, defaulted, or reassigned before the run) and, for the *_any_history forms, every prior state of the timer: never_early (cycle k>=1 begins only when the sum of the non-negative clock increments since the run's first reading is >= k*tock), lossless (every sleep request equals max(0, (k+1)*tock - elapsed real time seen by the timer): deadlines stay on the k*tock grid whatever the lateness), run_tock_is_tock_at_start, plus the scanning forms the oracle evaluates; proved by an invariant over the pacing loop (stop - last = deadline - elapsed). Model = repaired code (3 fix: commits on fix/timer). The model is tied to Doist.do/MonoTimer by a differential run of the full event log under a scripted time.time/time.sleep; the retro default and Tymist.Tock are re-extracted on every run. Rounding is outside the exact model: a raw-float stream (fpace: non-dyadic readings/tocks, wake-ups aimed at the float deadline and its neighbours) is judged by a float reference oracle only (tolerance-free: a cycle starts only when the timer shown the run's readings has latest >= its float-accumulated stop; no sleep exceeds stop - latest). Phase 3: the same Doist run twice (finished / Ctrl-C / doer exception, clock replaced, tock reassigned, doist() entry; theorem doRun_forgets_timer_history), sibling Doist, no doers, Doist.ado real mode (oracle only), doer ops on the scheduler in mid-cycle, real/limit/tock configured after construction.")
     level_note = ("Trusted: Lean kernel + propext/Quot.sound; the sampled correspondence (float arithmetic modelled as Int on integers x 2^-10 s, where doubles are exact); the adapter's monkeypatch of time.time/time.sleep is the only clock. Forward clock jumps are outside the property. Doist.ado (AsyncTimer pacing) is outside C07's text; AsyncTimer itself is modelled under C08.")
     quick_n = 1500
     thorough_n = 120000
@@ -48,6 +48,11 @@ class C07(core.Check):
             ("pace", 0, (0,) * 40, (-10, -40, 5), 32, (("peek",),), 3, (1, 0, 2)),
             # no doers at all: still one paced cycle; late by exactly two tocks
             ("pace", 0, (0,) * 20, (), 32, (), 0, ()),
+            # built with the default real=False, doist.real = True assigned afterwards, clock stepped back during the run (C07-r6m1 class)
+            ("pace", 0, (0, 0, 0, 0, 0, 0, -700, 0, 0, 0) + (0,) * 30, (), 32, (("real",),), 5, (0, 0, 0, 0, 0)),
+            ("pace", 100, (0, 0, 0, 0, -40, 0, 0) + (0,) * 30, (3,), 16, (("tock", 8), ("real",), ("limit", 24, "attr")), 6, (0, 1, 0, 0, 0, 0)),
+            ("pace", 0, (0,) * 40, (), 32, (("limit", 64, "call"),), 5, (0, 0, 0, 0, 0)),
+            ("pace", 0, (0,) * 40, (), 32, (("limit", 0, "ctor"),), 5, (0, 0, 0, 0, 0)),
             # the doer extends / removes doers in mid-cycle after the clock moved 12 inside that cycle (C07-r3m1 class)
             ("pace", 0, (0, 0, 0, 12, 0, 0, 0, 5) + (0,) * 30, (), 32, (), 5, ((1, 1), (2, 3), 0, (1, 2), 0)),
             ("pace", 0, (0,) * 40, (64, 0), 32, (), 4, (0, 0, 0, 0)),
@@ -78,27 +83,23 @@ class C07(core.Check):
             r = rng.random()
             yield T.gen_fpace(rng) if r < 0.2 else (T.gen_pace2(rng) if r < 0.4 else (T.gen_apace(rng) if r < 0.5 else T.gen_pace(rng)))
 
-    @staticmethod
-    def _pre_req(pre):
-        # the model sees a sibling Doist being built as two clock readings by somebody else; its tock does not exist there
-        out = []
-        for p in pre:
-            if p[0] == "sib":
-                out += [("xread",), ("xread",)]
-            elif p[0] != "sibtock":
-                out.append(p)
-        return tuple(out)
-
     def request(self, case):
         if case[0] == "apace":
             return case
         if case[0] == "fpace":
             return T.wrapF(case)
         if case[0] == "pace":
-            # a run with no doers (n == 0) still makes one paced cycle: the model's cycle count is max(n, 1)
-            return case[:5] + (self._pre_req(case[5]), max(case[6], 1), case[7])
-        first = case[1]
-        return ("pace2", first[:4] + (self._pre_req(first[4]), max(first[5], 1), first[6]), case[2], case[3])
+            # the model's cycle count: max(n, 1) (a run with no doers still makes one paced cycle), cut by `limit`
+            _, base, incs, ovs, tock0, pre, n, xs = case
+            return ("pace", base, incs, ovs, tock0, T.pre_for_model(pre), T.cycles_for_model(pre, tock0, n), xs)
+        (base, incs, ovs, tock0, pre, n, xs), (mode, tock2), (b2, i2, o2, n2, x2, e) = case[1:]
+        t1 = tock0
+        for p in pre:
+            if p[0] == "tock":
+                t1 = p[1]
+        n2m = T.cycles_for_model(pre, tock0, n2, tock_override=(tock2 if tock2 is not None else t1))   # .limit stays set
+        return ("pace2", (base, incs, ovs, tock0, T.pre_for_model(pre), T.cycles_for_model(pre, tock0, n), xs), case[2],
+                (b2, i2, o2, n2m, x2, e))
 
     def model_applies(self, case):
         if case[0] == "apace":
@@ -153,6 +154,11 @@ class C07(core.Check):
             f.append("peek-before-run")
         if any(p[0] == "sib" for p in pre):
             f.append("sibling-doist-built")
+        if any(p[0] == "real" for p in pre):
+            f.append("real-assigned-after-construction")
+        for p in pre:
+            if p[0] == "limit":
+                f.append("limit-via-" + p[2])
         if sum(1 for p in pre if p[0] == "tock") > 1:
             f.append("tock-assigned-repeatedly")
         if tock0 is None:
